@@ -32,8 +32,8 @@ from .loop import SimDeadlock
 from .world import HarnessError, StepCapExceeded, World, canon
 
 VERIF_DIR = os.path.dirname(os.path.dirname(os.path.abspath(__file__)))
-REPLAY_DIR = os.path.join(VERIF_DIR, 'replays')
-EVIDENCE_DIR = os.path.join(VERIF_DIR, 'evidence')
+REPLAY_DIR = os.environ.get('VERIF_REPLAY_DIR') or os.path.join(VERIF_DIR, 'replays')
+EVIDENCE_DIR = os.environ.get('VERIF_EVIDENCE_DIR') or os.path.join(VERIF_DIR, 'evidence')
 KNOWN_FINDINGS = os.path.join(VERIF_DIR, 'known_findings.json')
 
 CLAIMED = ['C01', 'C02', 'C03', 'C06', 'C07', 'C08', 'C09', 'C10', 'C11', 'C12', 'C13', 'C18', 'C19', 'C20']
